@@ -106,6 +106,8 @@ def sess_history(seed, hist=None, profile='main'):
         fresh, _ = kp.loads(text)
         ev2 = do_call(fresh, c)
         ev['fresh'] = (ev.get('res') == ev2.get('res'))
+        if 'intact' in ev or 'intact' in ev2:          # the process is left as it was found by the call on either copy
+            ev['intact'] = ev.get('intact', True) and ev2.get('intact', True)
         ev['kind'] = k
         evs.append(ev)
     s = dp.finish_session(lines, evs, text, seed, dp.features(lines) | {'history'}, dp.agn_classes(lines))
